@@ -74,30 +74,56 @@ LEMMAS = [('VerifC02HexEscapes', 'useHexEscapes'), ('VerifC02Quotes', 'escapeDou
           ('VerifC02Outermost', 'removeOutermostNonCapturingGroup')]
 
 
-def lemma_jobs(N, excl, onl, names=None, heavyN=None):
+def lemma_jobs(N, excl, onl, names=None, heavyN=None, deep=0):
     jobs = []
     for h, grp in LEMMAS:
         if names and h not in names:
             continue
         n = N if h != 'VerifC02FlagGroups' or heavyN is None else heavyN
-        for L in range(0, n + 1):
+        # all printable bytes up to n; beyond that (deep) the representative alphabet (see c02Alphabet in the harness)
+        extra = deep if (h not in ('VerifC02FlagGroups', 'VerifC02HexEscapes')) else 0
+        for L in range(0, n + extra + 1):
             hooks = dict(HOOKS)
             if onl:
                 hooks['only_obligations'] = onl
-            jobs.append(('regex/operators.' + h, dict(fixlen={'t': L}, unwind=6 * N + 8, unwind_by_func={'dontUseFlagsForMetaCharacters': L // 4 + 1},
+            hooks['max_findall'] = L // 4 + 1
+            jobs.append(('regex/operators.' + h, dict(fixlen={'t': L}, params={'alpha': 1 if L > n else 0}, unwind=6 * (N + extra) + 8, unwind_by_func={'dontUseFlagsForMetaCharacters': L // 4 + 1},
                                                        hooks=hooks, exclude=excl, timeout_ms=90000)))
     return jobs
 
 
+def shaped_jobs(tier, excl, onl):
+    """flag-group lemma on text with a skeleton: free text + opener + free text [+ ")"] + free text (representative alphabet)"""
+    if tier == 'quick':
+        openers, lens = (0, 2, 3, 4, 5), ((1, 1, 1),)
+    else:
+        openers, lens = (0, 1, 2, 3, 4, 5), ((1, 1, 1), (2, 1, 1), (1, 2, 1), (1, 1, 2))
+    jobs = []
+    for opn in openers:
+        for cl in (0, 1):
+            for a, b, c in lens:
+                hooks = dict(HOOKS, max_findall=2)
+                if onl:
+                    hooks['only_obligations'] = onl
+                jobs.append(('regex/operators.VerifC02FlagGroupsShaped', dict(fixlen={'p': a, 'b': b, 'q': c}, params={'opener': opn, 'close': cl}, unwind=60,
+                                                                             unwind_by_func={'dontUseFlagsForMetaCharacters': 3}, hooks=hooks, exclude=excl, timeout_ms=90000)))
+    return jobs, {'openers': ['(?i:', '(?-s:', '(?i)', '\\(?i:', '\\(?i)', '(?:'], 'openers_run': list(openers), 'free_text_lens(p,b,q)': [list(x) for x in lens], 'closing_paren': [0, 1]}
+
+
 def main(tier):
     ck = propcheck.Check('C02', tier)
-    N, heavy = (7, 6) if tier == 'quick' else (12, 9)
+    N, heavy = (7, 5) if tier == 'quick' else (12, 6)
     ck.assumptions += ['assume-guarantee decomposition of Operator.complete: one lemma per clean-up pass on text of the shape the previous passes guarantee (PG+: ASCII, every backslash starts an escape, unescaped parentheses balance, "(?" opens a well-formed group)',
                        'text length fixed per job (every length 0..N decided separately); text after useHexEscapes is printable ASCII (lemma 1), which licenses byte = rune in the regexp oracle',
                        'rassemble.Join / regexp/syntax are not encoded; "parses as RE2" is decided on the translation-validation family of C01, not here',
                        'non-ASCII (2..4 byte UTF-8) input to useHexEscapes is outside this bound']
-    jobs = lemma_jobs(N, exclude, only, heavyN=heavy)
+    deep = 4 if tier == 'quick' else 7
+    jobs = lemma_jobs(N, exclude, only, heavyN=heavy, deep=deep)
     jobs.append(('regex/operators.VerifC02FlagsPrefix', dict(unwind=12, hooks=dict(HOOKS), timeout_ms=60000)))
-    rs, viol = ck.run('pass-lemmas', jobs, bounds={'text_len': '0..%d (flag-group lemma 0..%d)' % (N, heavy), 'flag_sets': 'all subsets of {i,s}, all map iteration orders'})
+    rs, viol = ck.run('pass-lemmas', jobs, bounds={'text_len': '0..%d over all printable ASCII (flag-group lemma 0..%d), %d..%d over the representative alphabet' % (N, heavy, N + 1, N + deep), 'flag_sets': 'all subsets of {i,s}, all map iteration orders'})
+    ck.triage(viol)
+    sj, sb = shaped_jobs(tier, exclude, only)
+    ck.assumptions.append('flag-group lemma, deeper jobs: text with a skeleton (free text, opener, free text, optional ")", free text) over a representative alphabet: every byte comparison in the passes and predicates is against a constant of that alphabet, other printable bytes are interchangeable')
+    rs, viol = ck.run('flag-groups-shaped', sj, bounds=sb, job_timeout=420 if tier == 'quick' else 1500)
     ck.triage(viol)
     return ck.finish()
